@@ -218,6 +218,8 @@ func cbool(b bool) string {
 // skipKeys recognises the guard of an assembly loop body and returns the keys
 // for which the loop `continue`s:  if k == "a" || k == "b" { continue }   or
 // switch k { case "a", "b": continue }.
+var assemblyTarget string // the map the assembly loops fill
+
 func skipKeys(body *ast.BlockStmt, keyVar string) ([]string, bool) {
 	var keys []string
 	for _, st := range body.List {
@@ -291,6 +293,11 @@ func skipKeys(body *ast.BlockStmt, keyVar string) ([]string, bool) {
 			if id, ok := ix.Index.(*ast.Ident); !ok || id.Name != keyVar {
 				return nil, false
 			}
+			tgt, ok := ix.X.(*ast.Ident)
+			if !ok || (assemblyTarget != "" && assemblyTarget != tgt.Name) {
+				return nil, false
+			}
+			assemblyTarget = tgt.Name
 		default:
 			return nil, false
 		}
@@ -481,7 +488,7 @@ func main() {
 		case *ast.IfStmt:
 			ct := exprText(x.Cond)
 			// if err != nil { client.Close(); return ... } right after RecvTimeout
-			if len(stages) > 0 && stages[len(stages)-1] == "recv_hello" && ct == "err nil (!=)" || ct == "(!=) err nil" {
+			if ct == "(!=) err nil" {
 				if len(stages) > 0 && stages[len(stages)-1] == "recv_hello" && len(exits) == 0 {
 					for _, st := range x.Body.List {
 						if es, ok := st.(*ast.ExprStmt); ok && strings.HasPrefix(exprText(es.X), clientVar+" Close") {
@@ -508,6 +515,18 @@ func main() {
 				}
 			}
 		case *ast.RangeStmt:
+			if cl, ok := x.X.(*ast.CompositeLit); ok && x.Value != nil && strings.Contains(exprText(x.Body), "HasRole "+exprText(x.Value)) {
+				for _, e := range cl.Elts {
+					s, ok := constString(e)
+					if !ok {
+						fatal("AttachClient: role %s is not a constant", exprText(e))
+					}
+					roles = append(roles, s)
+				}
+				rolesFound = true
+				addStage("roles_check")
+				return false
+			}
 			src := exprText(x.X)
 			if strings.HasSuffix(src, "Details") {
 				kv, ok := x.Key.(*ast.Ident)
@@ -525,9 +544,11 @@ func main() {
 			}
 		case *ast.AssignStmt:
 			if len(x.Lhs) == 1 && len(x.Rhs) == 1 {
-				if ix, ok := x.Lhs[0].(*ast.IndexExpr); ok && exprText(ix.X) == "sessDetails" && exprText(x.Rhs[0]) == "sid" {
-					if s, ok := constString(ix.Index); ok {
-						sessionKey = s
+				if ix, ok := x.Lhs[0].(*ast.IndexExpr); ok && assemblyTarget != "" && exprText(ix.X) == assemblyTarget {
+					if _, isIdent := x.Rhs[0].(*ast.Ident); isIdent {
+						if s, ok := constString(ix.Index); ok {
+							sessionKey = s
+						}
 					}
 				}
 			}
@@ -637,5 +658,272 @@ func main() {
 	w("Definition gen_local_welcome_computed : list string := %s.", clist(localVars))
 	w("Definition gen_default_authmethod : string := %s.", cs(defaultMethod))
 	w("Definition gen_router_set_welcome_keys : list string := %s.", clist(postKeys))
+
+	// ---- the authenticators: every rejection point of Authenticate, in
+	// source order, with the variables named by their role
+	authDir := filepath.Join(repo, "router", "auth")
+	for _, a := range []struct{ name, file, recv string }{
+		{"ticket", "ticket.go", "TicketAuthenticator"},
+		{"cra", "crauth.go", "CRAuthenticator"},
+		{"cryptosign", "cryptosign.go", "CryptoSignAuthenticator"},
+	} {
+		f := parseFile(filepath.Join(authDir, a.file))
+		fd := findFunc(f, a.recv, "Authenticate")
+		if fd == nil {
+			fatal("%s.Authenticate not found", a.recv)
+		}
+		roles := roleNames(fd.Body)
+		w("Definition gen_%s_rejections : list string := %s.", a.name, clist(rejections(fd.Body, roles)))
+		w("Definition gen_%s_challenge_extra : list string := %s.", a.name, clist(challengeExtra(fd.Body, roles)))
+		if a.name == "cra" {
+			mk := findFunc(f, a.recv, "makeChallengeStr")
+			if mk == nil {
+				fatal("makeChallengeStr not found")
+			}
+			format, args := sprintfCall(mk)
+			w("Definition gen_cra_challenge_format : string := %s.", cs(format))
+			w("Definition gen_cra_challenge_args : list string := %s.", clist(args))
+		}
+		if a.name == "cryptosign" {
+			vs := findFunc(f, a.recv, "verifySignature")
+			if vs == nil {
+				fatal("verifySignature not found")
+			}
+			var params []string
+			for _, p := range vs.Type.Params.List {
+				for _, n := range p.Names {
+					params = append(params, n.Name)
+				}
+			}
+			vr := map[string]string{}
+			for i, n := range params {
+				vr[n] = fmt.Sprintf("ARG%d", i)
+			}
+			for k, v := range roleNames(vs.Body) {
+				vr[k] = v
+			}
+			var callArgs []string
+			ast.Inspect(fd.Body, func(n ast.Node) bool {
+				if c, ok := n.(*ast.CallExpr); ok && strings.HasSuffix(exprText(c.Fun), "verifySignature") {
+					for _, a := range c.Args {
+						callArgs = append(callArgs, roleText(a, roles))
+					}
+				}
+				return true
+			})
+			w("Definition gen_cryptosign_verify_call : list string := %s.", clist(callArgs))
+			w("Definition gen_cryptosign_verify_arity : nat := %d.", len(params))
+			w("Definition gen_cryptosign_verify_steps : list string := %s.", clist(returnsOf(vs.Body, vr)))
+		}
+	}
 	fmt.Print(out.String())
+}
+
+// roleNames names local variables by what they hold.
+func roleNames(body *ast.BlockStmt) map[string]string {
+	r := map[string]string{}
+	ast.Inspect(body, func(n ast.Node) bool {
+		as, ok := n.(*ast.AssignStmt)
+		if !ok || len(as.Rhs) != 1 || len(as.Lhs) == 0 {
+			return true
+		}
+		id, ok := as.Lhs[0].(*ast.Ident)
+		if !ok || id.Name == "_" {
+			return true
+		}
+		set := func(role string) {
+			if _, dup := r[id.Name]; !dup {
+				r[id.Name] = role
+			}
+		}
+		switch x := as.Rhs[0].(type) {
+		case *ast.CallExpr:
+			ft := exprText(x.Fun)
+			switch {
+			case strings.HasSuffix(ft, "keyStore AuthKey"):
+				set("KEY")
+			case strings.HasSuffix(ft, "keyStore AuthRole"):
+				set("ROLE")
+			case strings.HasSuffix(ft, "makeChallengeStr"), strings.HasSuffix(ft, "computeChallenge"):
+				set("CHAL")
+			case strings.HasSuffix(ft, "verifySignature"):
+				set("VERIFIED")
+			case ft == "wamp RecvTimeout":
+				set("MSG")
+			case ft == "wamp AsString":
+				set("AUTHID")
+			case ft == "hex DecodeString":
+				set("DECODED")
+			case ft == "sign Open":
+				set("OPENED")
+				if len(as.Lhs) == 2 {
+					if id2, ok := as.Lhs[1].(*ast.Ident); ok && id2.Name != "_" {
+						r[id2.Name] = "OPENOK"
+					}
+				}
+			}
+		case *ast.TypeAssertExpr:
+			if strings.HasSuffix(exprText(x.Type), "wamp Authenticate") {
+				set("AUTH")
+				if len(as.Lhs) == 2 {
+					if id2, ok := as.Lhs[1].(*ast.Ident); ok {
+						r[id2.Name+"@auth"] = "ISAUTH"
+					}
+				}
+			}
+		}
+		return true
+	})
+	return r
+}
+
+func roleText(e ast.Node, roles map[string]string) string {
+	var sb strings.Builder
+	ast.Inspect(e, func(n ast.Node) bool {
+		switch x := n.(type) {
+		case *ast.Ident:
+			if r, ok := roles[x.Name]; ok {
+				sb.WriteString(r + " ")
+			} else {
+				sb.WriteString(x.Name + " ")
+			}
+		case *ast.BasicLit:
+			sb.WriteString(x.Value + " ")
+		case *ast.UnaryExpr:
+			sb.WriteString(x.Op.String() + " ")
+		case *ast.BinaryExpr:
+			sb.WriteString("(" + x.Op.String() + ") ")
+		}
+		return true
+	})
+	return strings.TrimSpace(sb.String())
+}
+
+// rejections lists the conditions of every `if c { ... return nil, err }` at
+// the top level of Authenticate (the points where the client is refused).
+func rejections(body *ast.BlockStmt, roles map[string]string) []string {
+	var out []string
+	for _, st := range body.List {
+		is, ok := st.(*ast.IfStmt)
+		if !ok || len(is.Body.List) == 0 {
+			continue
+		}
+		ret, ok := is.Body.List[len(is.Body.List)-1].(*ast.ReturnStmt)
+		if !ok || len(ret.Results) != 2 {
+			continue
+		}
+		if id, ok := ret.Results[0].(*ast.Ident); !ok || id.Name != "nil" {
+			continue
+		}
+		out = append(out, roleText(is.Cond, roles))
+	}
+	return out
+}
+
+// challengeExtra: the entries of the dict sent as CHALLENGE.Extra that are set
+// unconditionally, as "key=value".
+func challengeExtra(body *ast.BlockStmt, roles map[string]string) []string {
+	var out []string
+	ast.Inspect(body, func(n ast.Node) bool {
+		as, ok := n.(*ast.AssignStmt)
+		if !ok || len(as.Lhs) != 1 || len(as.Rhs) != 1 {
+			return true
+		}
+		id, ok := as.Lhs[0].(*ast.Ident)
+		if !ok || id.Name != "extra" {
+			return true
+		}
+		if cl, ok := as.Rhs[0].(*ast.CompositeLit); ok {
+			for _, e := range cl.Elts {
+				kv := e.(*ast.KeyValueExpr)
+				k, _ := constString(kv.Key)
+				out = append(out, k+"="+roleText(kv.Value, roles))
+			}
+		}
+		return true
+	})
+	ast.Inspect(body, func(n ast.Node) bool {
+		cl, ok := n.(*ast.CompositeLit)
+		if !ok || !strings.HasSuffix(exprText(cl.Type), "wamp Challenge") {
+			return true
+		}
+		for _, e := range cl.Elts {
+			kv := e.(*ast.KeyValueExpr)
+			if exprText(kv.Key) == "Extra" {
+				out = append(out, "Extra="+roleText(kv.Value, roles))
+			}
+		}
+		return true
+	})
+	return out
+}
+
+func sprintfCall(fd *ast.FuncDecl) (string, []string) {
+	format, ok2 := "", false
+	var args []string
+	ast.Inspect(fd.Body, func(n ast.Node) bool {
+		c, ok := n.(*ast.CallExpr)
+		if !ok || exprText(c.Fun) != "fmt Sprintf" || len(c.Args) < 1 {
+			return true
+		}
+		var fold func(e ast.Expr) (string, bool)
+		fold = func(e ast.Expr) (string, bool) {
+			switch x := e.(type) {
+			case *ast.BasicLit:
+				s, err := strconv.Unquote(x.Value)
+				return s, err == nil
+			case *ast.BinaryExpr:
+				a, ok1 := fold(x.X)
+				b, ok2 := fold(x.Y)
+				return a + b, ok1 && ok2 && x.Op == token.ADD
+			case *ast.ParenExpr:
+				return fold(x.X)
+			}
+			return "", false
+		}
+		format, ok2 = fold(c.Args[0])
+		for _, a := range c.Args[1:] {
+			args = append(args, exprText(a))
+		}
+		return false
+	})
+	if !ok2 {
+		fatal("makeChallengeStr: the Sprintf format is not a constant")
+	}
+	return format, args
+}
+
+// returnsOf lists, in source order, the guarded returns of verifySignature as
+// "cond => result" (cond "" for the final return).
+func returnsOf(body *ast.BlockStmt, roles map[string]string) []string {
+	var out []string
+	for _, st := range body.List {
+		switch x := st.(type) {
+		case *ast.IfStmt:
+			if len(x.Body.List) == 0 {
+				continue
+			}
+			if ret, ok := x.Body.List[len(x.Body.List)-1].(*ast.ReturnStmt); ok && len(ret.Results) > 0 {
+				out = append(out, roleText(x.Cond, roles)+" => "+roleText(ret.Results[0], roles))
+			}
+		case *ast.ReturnStmt:
+			if len(x.Results) > 0 {
+				out = append(out, "=> "+roleText(x.Results[0], roles))
+			}
+		case *ast.AssignStmt:
+			if len(x.Rhs) == 1 {
+				if c, ok := x.Rhs[0].(*ast.CallExpr); ok {
+					ft := exprText(c.Fun)
+					if ft == "sign Open" || ft == "hex DecodeString" {
+						var as []string
+						for _, a := range c.Args {
+							as = append(as, roleText(a, roles))
+						}
+						out = append(out, ft+"("+strings.Join(as, ", ")+")")
+					}
+				}
+			}
+		}
+	}
+	return out
 }
